@@ -10,6 +10,7 @@ discovery_order must be a behaviour of the model for that project, and Go text, 
 (order included) and interface files must be byte-identical across seeds.  The repository corpus is compiled
 under the same seeds."""
 import glob, hashlib, json, os, subprocess
+import shutil
 from common import *
 import projgen
 
@@ -107,7 +108,7 @@ ERR_PROJECTS = {
 
 def obs_of(ans):
     """Everything C13 says must be byte-identical."""
-    o = {k: ans.get(k) for k in ("verdict", "go", "core", "mono", "lift", "anf", "tast")}
+    o = {k: ans.get(k) for k in ("verdict", "go", "core", "mono", "lift", "anf", "tast", "hir", "ast")}
     o["diags"] = [(d["stage"], d["msg"], d["s"], d["e"]) for d in ans.get("diags", [])]
     if ans.get("verdict") == "panic":
         o["panic"] = ans.get("at")
@@ -216,6 +217,43 @@ def run(tier, rep):
             rep.sample({"project": rq["id"], "kind": kind, "imports": json.loads(info) if kind == "graph" else info,
                         "verdict": answers[0][j]["verdict"], "discovery": answers[0][j].get("discovery"),
                         "go_sha": hashlib.sha1((answers[0][j].get("go") or "").encode()).hexdigest()[:12]})
+    # ---- 2b. the order in which the file system enumerates a package's files must not matter: the same multi-file project is
+    # written twice with the files created in opposite orders (on tmpfs readdir follows creation order) and compiled
+    files = {
+        "main.gom": "package Main\nimport Shape\n\nfn main() {\n    let p = Shape::make(3, 4);\n    let _ = string_println(show(twice(Shape::sum(p))) + show(inc(Shape::norm(p))));\n    ()\n}\n",
+        "arith.gom": "package Main\n\nfn twice(x: int32) -> int32 { x * 2 }\nfn inc(x: int32) -> int32 { let one = 1; x + one }\n",
+        "show.gom": "package Main\n\nfn show(x: int32) -> string { let s = int32_to_string(x); s + \";\" }\n",
+        "zeta.gom": "package Main\n\nfn unused_z(x: int32) -> int32 { match x { 0 => 1, _ => x } }\n",
+        "Shape/point.gom": "package Shape\n\nstruct Point { x: int32, y: int32 }\nfn make(x: int32, y: int32) -> Point { Point { x: x, y: y } }\n",
+        "Shape/ops.gom": "package Shape\n\nfn sum(p: Point) -> int32 { p.x + p.y }\nfn norm(p: Point) -> int32 { let a = p.x * p.x; a + p.y * p.y }\n",
+        "Shape/alpha.gom": "package Shape\n\nfn origin() -> Point { make(0, 0) }\n",
+    }
+    base_dir = "/dev/shm" if os.path.isdir("/dev/shm") and os.access("/dev/shm", os.W_OK) else root
+    copies = []
+    for ci, order in enumerate((sorted(files), sorted(files, reverse=True))):
+        d = os.path.join(base_dir, f"verif-c13-readdir-{os.getpid()}-{ci}")
+        shutil.rmtree(d, ignore_errors=True)
+        os.makedirs(os.path.join(d, "Shape"))
+        for rel in order:
+            open(os.path.join(d, rel), "w").write(files[rel])
+        copies.append(d)
+    try:
+        listings = [[sorted(os.listdir(d)) == os.listdir(d), os.listdir(d), os.listdir(os.path.join(d, "Shape"))] for d in copies]
+        ans = gv("compile", [{"id": ci, "path": os.path.join(d, "main.gom"), "dumps": True} for ci, d in enumerate(copies)])
+        obs = []
+        for d, a in zip(copies, ans):
+            o = obs_of(a)
+            obs.append(json.loads(json.dumps(o).replace(d, "<root>")))
+        if obs[0] != obs[1]:
+            what, where = first_diff(obs[0], obs[1])
+            rep.violation(f"depends-on-directory-enumeration-order:{what}", {"first_difference": where, "enumeration_copy_0": listings[0][1:], "enumeration_copy_1": listings[1][1:]},
+                          replay={"files": files})
+        if obs[0]["verdict"] != "ok":
+            raise ToolError("readdir project does not compile: " + str(ans[0].get("diags"))[:300])
+        rep.coverage["directory_enumeration_orders_differ_between_copies"] = listings[0][1:] != listings[1][1:]
+    finally:
+        for d in copies:
+            shutil.rmtree(d, ignore_errors=True)
     # ---- 3. interface files under seeds (CLI check of a package with several imports)
     build_cli()
     iface_compared = 0
